@@ -31,7 +31,9 @@ T = [
  ("C11-ite-unknown-condition", "C11", "C11-out", "patch.diff", "seeded_C11.rs", "C11a", ["c11a"], "ite whose condition reaches the terminal U with one constant and one non-constant branch"),
  ("C11-xor-equiv-tag", "C11", "C11-out", "patch2.diff", "demo2_seeded_C11_b.rs", "C11b", ["c11b"], "xor with the larger edge as left operand and equiv of the same pair in one manager"),
  ("C14-parallel-recursor-guard", "C14", "C14-out", "patch.diff", "seeded_C14.rs", "C14a", ["c14a"], ">= 2 worker threads, out of memory in the then-branch only of a parallel binary step"),
- ("C07-cache-unlocked-during-gc", "C07", "C07-out", "patch.diff", "seeded_C07.rs", "C07a", ["c07a"], "a collection issued by one thread overlapping an apply operation on another that adds a cache entry whose result dies in the same collection; the same key looked up again later"),
+ ("C16-unname-keeps-key", "C16", "C16-out", "patch.diff", "seeded_C16.rs", "C16a", ["c16a"], "name a variable, clear the name with set_var_name(v, \"\"), then look up or reuse the old name"),
+ ("C16-frommap-fast-path", "C16", "C16-out", "patch2.diff", "seeded_C16_2.rs", "C16b", ["c16b"], "add_named_vars_from_map on a manager that has variables but none of them named"),
+ ("C07-cache-unlocked-during-gc", "C07", "C07-out", "patch.diff", "seeded_C07.rs", "C07a", ["c07a", "c07a2", "c07a3"], "a collection issued by one thread overlapping an apply operation on another that adds a cache entry whose result dies in the same collection; the same key looked up again later"),
  ("C07-parallel-recursor-guard", "C07", "C07-out", "patch2.diff", "seeded_C07_2.rs", "C07b", ["c07b"], "as C14-parallel-recursor-guard (found independently)"),
  ("C14-terminal-free-list", "C14", "C14-out", "patch2.diff", "seeded_C14_2.rs", "C14b", ["c14b"], "more distinct MTBDD terminals over the manager's lifetime than the terminal capacity, with a gc in between"),
  ("C18-simplify-stale-bitset", "C18", "C18-out", "patch.diff", "seeded_C18.rs", "C18a", ["c18a"], "a gate with a complementary pair followed by a slow-path gate over the same variable in one simplify call"),
